@@ -450,24 +450,36 @@ def rule_prec(E, R):
 
 
 def rule_notbind(E, R):
+    """`not` binds tighter than every binary operator: its operand is lexed by lex_simple_expr (one simple expression),
+    never by the entry point that also consumes `and`/`or`/`xor` chains. Read wherever the Unary node is put together
+    (lex_simple_expr itself or a private helper it hands the branch to)."""
     rule = "R01-notbind"
     fn = "ast::logical_expr::LogicalExpr::lex_simple_expr"
     h = E.hir(fn)
     if not h:
         return R.cannot(rule, fn, "anchor not found")
-    found = False
-    for i in exprs(h["body"], "If", into_closures=False):
-        cond = strip(i["cond"])
-        if cond.get("k") == "LetExpr" and list(calls(cond["init"], r"UnaryOp as lex::Lex>::lex$|lex::Lex::lex$")) and \
-                "UnaryOp" in norm(strip(cond["init"]).get("ty", "")):
-            found = True
-            cs = [norm(c.get("callee", "")) for c in exprs(i["then"], ("Call", "MethodCall"), into_closures=False)]
-            operand = [c for c in cs if c.endswith("lex_simple_expr") or c.endswith("LexWith::lex_with") or c.endswith("LogicalExpr::lex_with")]
-            R.check(operand == [fn], rule, fn, "`not` applies to the next simple expression only",
-                    "operand lexed by %s" % operand, i["sp"])
-            built = [s for s in exprs(i["then"], "Struct") if norm(s["res"].get("path", "")).endswith("LogicalExpr::Unary")]
-            R.check(len(built) == 1, rule, fn, "builds a Unary node", where=i["sp"])
-    R.check(found, rule, fn, "unary-operator branch found", where=h["span"])
+    S = sem.Sem(E, h)
+    built = [x for x in S.sites() if x.node.get("k") == "Struct" and not x.node.get("x") and
+             norm(x.node["res"].get("path", "")).endswith("LogicalExpr::Unary")]
+    R.check(len(built) == 1, rule, fn, "builds a Unary node", "%d construction sites" % len(built), h["span"])
+    for x in built:
+        # under the test that a unary operator was lexed
+        lits, _ = sem.literals(x.pc)
+        gated = False
+        for a, pol in lits:
+            if pol and a.kind in ("is", "ok"):
+                nodes = [S.resolve(v.node, v.frame).node for v in a.scruts] if a.kind == "is" else [a.node]
+                if any("UnaryOp" in norm(sem.peel(n).get("ty", "")) and list(calls(n, r"UnaryOp as lex::Lex>::lex$|lex::Lex::lex$")) for n in nodes):
+                    gated = True
+        R.check(gated, rule, fn, "unary-operator branch found", "the Unary node is not built under a successful UnaryOp::lex", x.node["sp"])
+        arg = [f["e"] for f in x.node["fields"] if f["name"] == "arg"]
+        lexers = []
+        if arg:
+            # the chain of calls the operand value went through, innermost last (helpers that were followed appear as <name>)
+            ms = sem.provenance(S, arg[0], x.frame)[3]
+            lexers = [m.strip("<>") for m in ms if m.strip("<>") in ("lex_simple_expr", "lex_with", "lex_more_with_precedence")]
+        R.check(lexers == ["lex_simple_expr"], rule, fn, "`not` applies to the next simple expression only",
+                "operand lexed by %s" % lexers, x.node["sp"])
 
 
 def run(F, R, tier):
